@@ -202,6 +202,7 @@ def handle (iasOfMach : Rat → Int → Rat) (ws : List String) : String :=
     | "interrogator" => fmtRes id (interrogator b)
     | "capability" => fmtRes fmtNat (capability b)
     -- uplink
+    | "tell" => fmtRes (fun _ => "0") (tell iasOfMach b)
     | "uplink_icao" => fmtMsg (uplinkIcao m.toList)
     | "uf" => fmtNat (ufB b)
     | "uplink.bds" => fmtOpt id (uplinkBds b)
